@@ -27,7 +27,8 @@ ROWS = {"r1": ("m1", "my_func"), "r2": ("m1", "myXfunc"), "r3": ("m1", "MY_FUNC"
         # an identifier with a letter outside the Basic Multilingual Plane right after the prefix "my"
         "r14": ("m1", "my\U00020000func")}
 BATCHES = {"b1": (["r1", "r2"], 0), "b2": (["r3", "r5", "r1"], 1), "b3": (["r4", "r6", "r9", "r12", "r13"], 0), "b4": (["r7", "r8", "r10", "r14"], 1),
-           "b5": ([], 2), "b6": (["r11", "r9"], 0)}
+           "b5": ([], 2), "b6": (["r11", "r9", "r10"], 0)}      # b6: one function, three traces that differ in one column each - among them
+# (no return, yields int) next to (returns int, no yield): the same values in other columns
 
 
 PREFIXES = [None, "my_func", "my", "foo", "Foo.", "a%", "a_", "MY_", "myX", "f", "Foo.bar", "my_funcs"]
